@@ -21,6 +21,7 @@
     add3 <xyz> <xyz>          -> <xyz>
     addxy <xyz> <xy>          -> <xyz>           xy = <fe x> <fe y> <inf>
     negj <xyz>                -> <xyz>
+    negxy <xy>                -> <xy>            XY.Neg
     mullam <xyz>              -> <xyz>
     setxyz <xyz>              -> <xy>
     setxo <fe> <odd>          -> <xy>
@@ -130,6 +131,7 @@ def step (_ : Unit) (toks : List String) : Unit × String :=
     | none => bad
   | ["dbl", x, y, z, i] => match xyz? [x, y, z, i] with | some a => ((), xyzStr (XYZ.double a)) | none => bad
   | ["negj", x, y, z, i] => match xyz? [x, y, z, i] with | some a => ((), xyzStr (XYZ.neg a)) | none => bad
+  | ["negxy", x, y, i] => match xy? [x, y, i] with | some a => ((), xyStr (XY.neg a)) | none => bad
   | ["mullam", x, y, z, i] => match xyz? [x, y, z, i] with | some a => ((), xyzStr (XYZ.mulLambda a)) | none => bad
   | ["setxyz", x, y, z, i] => match xyz? [x, y, z, i] with | some a => ((), xyStr (XY.ofXYZ a)) | none => bad
   | ["add3", x, y, z, i, x2, y2, z2, i2] => match xyz? [x, y, z, i], xyz? [x2, y2, z2, i2] with
